@@ -307,6 +307,35 @@ func runC18(c *Ctx) {
 			}(g)
 		}
 		wg.Wait()
+		// (iii) the serialisers and verifiers again, many times from every goroutine at once: scratch
+		// memory shared between calls (a pooled or cached buffer) shows up here as a wrong result and,
+		// in the race-detector build, as a reported race
+		var hot []string
+		for _, name := range calls {
+			switch name {
+			case "Bytes", "Data", "Verify", "VerifySignature", "RawBytes", "Hash", "IdentHash", "Base32Address", "Base64":
+				if !clockDependent(name) {
+					hot = append(hot, name)
+				}
+			}
+		}
+		if len(hot) > 0 {
+			for g := 0; g < 6; g++ {
+				wg.Add(1)
+				go func(g int) {
+					defer wg.Done()
+					for it := 0; it < 12; it++ {
+						name := hot[(it+g)%len(hot)]
+						if got := callRendered(sv.val, name); got != alone[name] {
+							mu.Lock()
+							diffs = append(diffs, name)
+							mu.Unlock()
+						}
+					}
+				}(g)
+			}
+			wg.Wait()
+		}
 		c.Check("concurrent_results_equal_sequential", len(diffs) == 0, sv.name, [][]byte{sv.in}, "", fmt.Sprintf("calls whose concurrent result differed: %v", diffs))
 		c.OracleN["shared_values"]++
 	}
